@@ -61,6 +61,23 @@ void harness(void) {
     w_bf_delete(Ro); w_bf_delete(Wr); w_bf_delete(A); w_bf_delete(B);
     WITNESS(); return; }
 #endif
+#if defined(WITH_WRAP) && WITH_WRAP == 3   /* every mutating operation through a read-only wrap of the serialized image is refused and the image stays as it was */
+  { static uint8_t image[64], saved[64]; int64_t isz = w_bf_serialize(A, image, 64);
+    ASSERT(isz > 0, "serialize accepted");
+    for (int i = 0; i < 64; i++) saved[i] = image[i];
+    void* Wv = w_bf_wrap(image, (uint64_t)isz);
+    ASSERT(Wv != 0, "wrap of the image accepted");
+    uint64_t q = ND_U64();
+    ASSERT(w_bf_update(Wv, q) == 1, "update through a read-only view refused");
+    ASSERT(w_bf_query_and_update(Wv, q) == -1, "query_and_update through a read-only view refused");
+    ASSERT(w_bf_reset(Wv) == 1, "reset through a read-only view refused");
+    ASSERT(w_bf_invert(Wv) == 1, "invert through a read-only view refused");
+    ASSERT(w_bf_union(Wv, A) == 1, "union_with into a read-only view refused");
+    ASSERT(w_bf_intersect(Wv, B) == 1, "intersect into a read-only view refused");
+    for (int i = 0; i < 64; i++) ASSERT(image[i] == saved[i], "caller memory behind a read-only view is never written");
+    w_bf_delete(Wv); w_bf_delete(A); w_bf_delete(B);
+    WITNESS(); return; }
+#endif
 #ifdef WITH_WRAP   /* read-only wrap of the serialized image of A (A was filled by update() only: its bit count is still pending) */
   { static uint8_t image[64]; int64_t isz = w_bf_serialize(A, image, 64);
     ASSERT(isz > 0, "serialize accepted");
